@@ -165,6 +165,32 @@ def job_broadcast(job):
                         fail({'config': cfg, 'what': 'indexing an ndarray-backed multivector returned other entries than addressed', 'index': repr(form)[:60], 'shape': list(shape)})
                 except Exception as e:
                     fail({'config': cfg, 'what': 'indexing / assignment with a valid numpy index raised', 'index': repr(form)[:60], 'error': repr(e)[:120]})
+            # (2b) a plain number next to array coefficients of another dtype (integer arrays and 0.5, float arrays and a complex
+            # number): the number is the scalar multivector, whatever the arrays hold
+            for dt, num_ in ((int, 0.5), (int, 2.5), (float, 1.5 + 2j), (np.float32, 0.1)):
+                ia = MultiVector.fromkeysvalues(alg, tuple(ak), [np.arange(1, 4, dtype=dt) * (j_ + 1) for j_ in range(len(ak))])
+                for name in ('gp', 'add', 'sub'):
+                    for side in ('left', 'right'):
+                        out['evaluations'] += 1
+                        opf = INFIX[name]
+                        got = _safe(lambda: opf(num_, ia) if side == 'left' else opf(ia, num_))
+                        for j_ in range(3):
+                            el = MultiVector.fromkeysvalues(alg, tuple(ak), [complex(v[j_]) if isinstance(num_, complex) else float(v[j_]) for v in ia.values()])
+                            exp = _safe(lambda: opf(num_, el) if side == 'left' else opf(el, num_))
+                            # element j of every coefficient of the result (a coefficient the number alone contributes stays a number)
+                            ge = ('value', {k: (v[j_] if hasattr(v, '__getitem__') else v) for k, v in zip(got[1].keys(), got[1].values())}) if got[0] == 'value' else got
+                            ed = dict(zip(exp[1].keys(), exp[1].values())) if exp[0] == 'value' else None
+                            okn = ge[0] == exp[0] and (ge[0] != 'value' or all(
+                                abs(complex(ge[1].get(k, 0)) - complex(ed.get(k, 0))) <= 1e-6 * max(1.0, abs(complex(ed.get(k, 0)))) for k in set(ge[1]) | set(ed)))
+                            if okn and got[0] == 'value' and j_ == 0:
+                                ix = _safe(lambda: got[1][0])
+                                if ix[0] != 'value':
+                                    fail({'config': cfg, 'op': name, 'what': 'indexing the result of <number> op <array-valued multivector> raised', 'number': str(num_),
+                                          'a_keys': list(ak), 'error': ix[1]})
+                            if not okn:
+                                fail({'config': cfg, 'op': name, 'what': f'number on the {side} of array coefficients of dtype {np.dtype(dt).name}: element differs from number op element',
+                                      'number': str(num_), 'a_keys': list(ak), 'element': j_, 'got': str(ge)[:160], 'expected': str(exp)[:160]})
+                                break
             # (3) numbers, lists, tuples, callables on either side keep their side
             x = MultiVector.fromkeysvalues(alg, tuple(ak), frac_vals(rng, ak))
             y = MultiVector.fromkeysvalues(alg, tuple(bk), frac_vals(rng, bk))
@@ -277,13 +303,24 @@ def job_register(job):
             todo = rng.sample(todo, cfg['sample'])
         todo = list(cfg.get('always', [])) + todo
         nargs = cfg.get('nargs', 2)
+        # directed operands: every single blade and a few two-blade patterns as first argument of the unary involution / dual forms
+        # (a recorder decides on the stored keys alone what it emits)
+        directed = []
+        if cfg.get('single_blades'):
+            N_ = 2 ** alg.d
+            pats_ = [(k,) for k in range(N_)] + [tuple(rng.sample(range(N_), 2)) for _ in range(6)]
+            for expr in ('a.involute()', 'a.conjugate()', '(~a)', 'a.reverse()', '(-a)', 'a.normsq()', '(a * b * ~a)', '(b - a.involute() * b)'):
+                for pk_ in pats_:
+                    directed.append((expr, pk_))
         # nested registered functions
-        for expr in todo:
+        for expr, forced in [(e_, None) for e_ in todo] + directed:
             exprs.add(expr)
             f = _mk(expr, nargs)
             args = []
-            for _ in range(nargs):
+            for ai_ in range(nargs):
                 ks = rand_keys(rng, alg, rng.choice(['sparse', 'perm', 'grade']))
+                if forced is not None and ai_ == 0:
+                    ks = forced
                 if not ks:
                     ks = (0,)
                 args.append(mv_from(alg, ks, frac_vals(rng, ks)))
